@@ -203,6 +203,9 @@ class VerifyResponder:
         if k == "outer":
             m2 = mutate_items(m2, mut["outer"])
             self.resume_authentic = False
+        if k == "error":  # C04: genuine resume fields plus an error code / a wrong or absent state
+            m2 = self._error_reply(b"\x02", mut, m2)
+            self.resume_authentic = False
         self.sent_m2 = m2
         return m2
 
